@@ -221,22 +221,20 @@ class Parser(with_metaclass(_ParserMeta, Node)):
         self._debug = d
         return self
 
-    # marks "no first element" for sep_by; a matched element may be falsy
-    _NOTHING = object()
-
     @staticmethod
-    def _accumulate(first, rest):
-        results = [first] if first is not Parser._NOTHING else []
-        if rest:
-            results.extend(rest)
-        return results
+    def _accumulate(found):
+        # found is None when there is no first element; a matched element may be falsy
+        if found is None:
+            return []
+        first, rest = found
+        return [first] + rest
 
     def sep_by(self, sep):
         """
         Return a parser that matches zero or more instances of the current
         parser separated by instances of the parser sep.
         """
-        return Lift(self._accumulate) * Opt(self, Parser._NOTHING) * Many(sep >> self)
+        return Lift(self._accumulate) * Opt(Sequence([self, Many(sep >> self)]))
 
     def until(self, pred):
         """
